@@ -558,12 +558,16 @@ impl NormalizedDurationRecord {
                 tz.get_epoch_nanoseconds_for(start, Disambiguation::Compatible, provider)?;
             let end_epoch_ns =
                 tz.get_epoch_nanoseconds_for(end, Disambiguation::Compatible, provider)?;
-            (start_epoch_ns, end_epoch_ns)
+            (start_epoch_ns.0, end_epoch_ns.0)
         // 7. If timeZoneRec is unset, then
         } else {
             // a. Let startEpochNs be GetUTCEpochNanoseconds(start.[[Year]], start.[[Month]], start.[[Day]], start.[[Hour]], start.[[Minute]], start.[[Second]], start.[[Millisecond]], start.[[Microsecond]], start.[[Nanosecond]]).
             // b. Let endEpochNs be GetUTCEpochNanoseconds(end.[[Year]], end.[[Month]], end.[[Day]], end.[[Hour]], end.[[Minute]], end.[[Second]], end.[[Millisecond]], end.[[Microsecond]], end.[[Nanosecond]]).
-            (start.as_nanoseconds()?, end.as_nanoseconds()?)
+            // (mathematical values: a wall-clock reading may lie in the partial day beyond the range of instants)
+            (
+                start.utc_epoch_nanoseconds_unchecked(),
+                end.utc_epoch_nanoseconds_unchecked(),
+            )
         };
 
         // 9. If endEpochNs = startEpochNs, throw a RangeError exception.
@@ -585,7 +589,7 @@ impl NormalizedDurationRecord {
         // 12. Let progress be (destEpochNs - startEpochNs) / (endEpochNs - startEpochNs).
         // 13. Let total be r1 + progress × increment × sign.
         let progress =
-            (dest_epoch_ns - start_epoch_ns.0) as f64 / (end_epoch_ns.0 - start_epoch_ns.0) as f64;
+            (dest_epoch_ns - start_epoch_ns) as f64 / (end_epoch_ns - start_epoch_ns) as f64;
         let total = r1 as f64
             + progress * options.increment.get() as f64 * f64::from(sign.as_sign_multiplier());
 
@@ -613,7 +617,7 @@ impl NormalizedDurationRecord {
                     NormalizedTimeDuration::default(),
                 )?,
                 total: Some(FiniteF64::try_from(total)?),
-                nudge_epoch_ns: end_epoch_ns.0,
+                nudge_epoch_ns: end_epoch_ns,
                 expanded: true,
             })
         // 18. Else,
@@ -627,7 +631,7 @@ impl NormalizedDurationRecord {
                     NormalizedTimeDuration::default(),
                 )?,
                 total: Some(FiniteF64::try_from(total)?),
-                nudge_epoch_ns: start_epoch_ns.0,
+                nudge_epoch_ns: start_epoch_ns,
                 expanded: false,
             })
         }
@@ -915,16 +919,18 @@ impl NormalizedDurationRecord {
                 // end.[[Hour]], end.[[Minute]], end.[[Second]], end.[[Millisecond]], end.[[Microsecond]],
                 // end.[[Nanosecond]], calendarRec.[[Receiver]]).
                 // 2. Let endInstant be ? GetInstantFor(timeZoneRec, endDateTime, "compatible").
-                timezone.get_epoch_nanoseconds_for(end, Disambiguation::Compatible, provider)?
+                timezone
+                    .get_epoch_nanoseconds_for(end, Disambiguation::Compatible, provider)?
+                    .0
                 // 3. Let endEpochNs be endInstant.[[Nanoseconds]].
                 // vii. Else,
             } else {
                 // 1. Let endEpochNs be GetUTCEpochNanoseconds(end.[[Year]], end.[[Month]], end.[[Day]], end.[[Hour]],
                 // end.[[Minute]], end.[[Second]], end.[[Millisecond]], end.[[Microsecond]], end.[[Nanosecond]]).
-                end.as_nanoseconds()?
+                end.utc_epoch_nanoseconds_unchecked()
             };
             // viii. Let beyondEnd be nudgedEpochNs - endEpochNs.
-            let beyond_end = nudge_epoch_ns - end_epoch_ns.0;
+            let beyond_end = nudge_epoch_ns - end_epoch_ns;
             // ix. If beyondEnd < 0, let beyondEndSign be -1; else if beyondEnd > 0, let beyondEndSign be 1; else let beyondEndSign be 0.
             // x. If beyondEndSign ≠ -sign, then
             if beyond_end.signum() != -i128::from(sign.as_sign_multiplier()) {
